@@ -169,4 +169,28 @@ PROPS = {
         assumptions=["z3/cvc5 sound", "PyVC level-1 string encoding", "handlers push only untagged lines"],
         not_decided="(b) literal framing, (c) quoted strings, (d) parentheses, (e) round trip",
     ),
+    "C19": dict(
+        design_ref="DESIGN.md 7 C19",
+        technique="contract-based deductive verification (PyVC + z3 strings) of the frame written to the user process (IMAPSubprocessInterface.message); the read loop IMAPClient.start is covered by an exhaustive bounded oracle against a reference tokenizer",
+        category="other",
+        text="Proved: for every message, an authenticated session's message is forwarded as exactly '{<octet count>}\\n' followed by the message itself, one frame per message, and a session that is not authenticated forwards nothing "
+             "(state gate, shared with C18 a). Bounded (exhaustive over 9 stream units up to 2-3 per stream x 3 segmentations, real asyncio.StreamReader): the read loop delivers exactly the commands the byte stream denotes, sends '+' exactly for "
+             "synchronising literals, answers over-limit input with BAD and (after the recorded fix) stays in sync - the next command is no longer swallowed.",
+        note="The read loop itself (rstrip, $-anchored literal regex, int(), three size tests) is NOT under contract: the position-level refinement proof planned in DESIGN 7 C19 was not built; only bounded evidence covers clauses (a), (b). "
+             "De-framing in IMAPClientProxy.run and the response relay msgs_to_client are not decided.",
+        assumptions=["z3 sound", "PyVC level-1 strings", "A-ASYNC StreamReader/Writer", "IMAPSubprocessInterface.unauthenticated never writes to a user process"],
+        not_decided="(a), (b) beyond the bounded oracle; (d) response relay",
+    ),
+    "C16": dict(
+        design_ref="DESIGN.md 7 C16",
+        technique="contract-based deductive verification (PyVC + z3 strings) of FetchAtt.body with the renderer uninterpreted; fixture-corpus oracle on the real server (bounded) for the renderer equations",
+        category="other",
+        text="FetchAtt.body is proved, for every rendered section text and every partial <o.n>, to return '{<n>}CRLF' + data with <n> equal to the octet count of data (clause d), data equal to the CRLF-terminated section text, or exactly its "
+             "[o : o+n] slice (clause c). RFC822.SIZE and the size SEARCH keys are proved to read the same rendering length (SearchContext.msg_size, C14). The equations between the two library renderers "
+             "(SIZE = len BODY[], HEADER+TEXT = BODY[], CRLF everywhere, RFC822* = BODY[*], repeated fetch, COPY identical) are checked on the repository's fixture corpus plus generated edge messages - bounded evidence only.",
+        note="Two genuine defects on fixture messages are recorded as known findings (F44 bare LF in nested multipart renderings, F45 HEADER+TEXT != BODY[] for one/19); every other corpus message must satisfy all equations. "
+             "APPEND round trip (clause h) is not decided.",
+        assumptions=["z3 sound", "PyVC level-1 strings", "A-EMAIL: FetchAtt._body / msg_as_bytes deterministic"],
+        not_decided="(f),(g),(h) for all messages; RFC822* desugaring in the parser",
+    ),
 }
